@@ -68,9 +68,9 @@ int _vnacommon_spline_calc(int n, const double *x_vector,
     double *sp = NULL;  /* second derivative at x[i] */
 
     /*
-     * Special-case a single element.
+     * Nothing to do if there are no segments.
      */
-    if (n < 2) {
+    if (n < 1) {
 	return 0;
     }
 
@@ -108,7 +108,8 @@ int _vnacommon_spline_calc(int n, const double *x_vector,
 	if (hp[i] < MIN_DX) {
 	    /* error reported by caller */
 	    errno = EINVAL;
-	    return -1;
+	    rv = -1;
+	    goto out;
 	}
     }
 
@@ -116,8 +117,10 @@ int _vnacommon_spline_calc(int n, const double *x_vector,
      * Do gaussian elimination, taking advantage of the fact that
      * the matrix is sparse (tri-diagonal).
      */
-    up[0] = 2.0 * (hp[0] + hp[1]);
-    vp[0] = 6.0 * (mp[1] - mp[0]);
+    if (n > 1) {
+	up[0] = 2.0 * (hp[0] + hp[1]);
+	vp[0] = 6.0 * (mp[1] - mp[0]);
+    }
     for (i = 1; i < n - 1; ++i) {
 	up[i] = 2.0 * (hp[i] + hp[i+1]) - hp[i] * hp[i]   / up[i-1];
 	vp[i] = 6.0 * (mp[i+1] - mp[i]) - hp[i] * vp[i-1] / up[i-1];
@@ -184,13 +187,6 @@ double _vnacommon_spline_eval(int n, const double *x_vector,
     if (n < 1) {
 	errno = EINVAL;
 	return HUGE_VAL;
-    }
-
-    /*
-     * Special-case one element.
-     */
-    if (n == 1) {
-	return y_vector[0];
     }
 
     /*
